@@ -751,6 +751,18 @@ def c13_link(env):
         o.prove(f"path{i}:at-most-one-frame", hyp + p.cond, z3.BoolVal(sends <= 1))
         if sends:
             o.prove(f"path{i}:frame-only-when-legal", hyp + p.cond, legal, replay=replay_sd)
+            # at most one detach per attach: the detach gives the output handle up, so that neither a
+            # second call nor Drop can put another detach for the same attach on the wire
+            takes = count_calls(p, r"Option::<.*OutputHandle.*>::take$")
+
+            def replay_handle(m, d=d, closed=closed):
+                c = model_value(m, closed) == 1
+                cmds = [f"link_send_detach {s0} 1 {int(c)}" for s0 in (5, 8, 11)]
+                return cmds, (lambda outs: any(js.get("panic") or (js["frames"] > 0 and js["has_handle"]) for js in outs))
+
+            rdy, _ = poll_ready_result(p.ret)
+            if z3.is_true(z3.simplify(rdy)):  # the poll that completes the send (a Pending poll has not sent yet)
+                o.prove(f"path{i}:the-detach-gives-up-the-output-handle", hyp + p.cond, z3.BoolVal(takes >= 1), replay=replay_handle)
         is_ready, is_ok = poll_ready_result(p.ret)
         if z3.is_true(z3.simplify(is_ready)) and is_ok is not None:
             o.prove(f"path{i}:ok-implies-legal", hyp + p.cond + [is_ok], legal, replay=replay_sd)
@@ -2127,3 +2139,225 @@ def c04_frame_decoder_bounds(env):
 
 REGISTRY.setdefault("C15", []).append(c15_frame_decoder_bounds)
 REGISTRY.setdefault("C04", []).append(c04_frame_decoder_bounds)
+
+
+# ---- C03 / C05: hand-written format-code tables of typed protocol items ---------------------------
+
+# AMQP 1.0 part 1 section 1.6 (constructors) and part 3 (restricted types), written from the spec
+SPEC_CODES = {"ulong": (0x80, 0x53, 0x44), "uuid": (0x98,), "binary": (0xA0, 0xB0), "string": (0xA1, 0xB1), "symbol": (0xA3, 0xB3)}
+CODE_TABLES = {
+    # item: (source file, function pattern, {variant of the item's Field enum: AMQP source type}, native command)
+    "message_id": ("/repo/fe2o3-amqp-types/src/messaging/format/message_id.rs", r"^message_id::<impl at [^>]*>::visit_u8$", {"Ulong": "ulong", "Uuid": "uuid", "Binary": "binary", "String": "string"}, "msgid"),
+    "annotation_key": ("/repo/fe2o3-amqp-types/src/messaging/format/annotations.rs", r"^annotations::<impl at [^>]*>::visit_u8$", {"Symbol": "symbol", "Ulong": "ulong"}, "annkey"),
+}
+
+
+def c03_code_tables(env):
+    import engine as _engine
+
+    out = []
+    tenv = env.crate("fe2o3-amqp-types")
+    senv = env.crate("serde_amqp")
+    tryfrom = senv.fn(r"^format_code::<impl at [^>]*>::try_from$", sig=r"_1: u8")
+    for item, (src, pat, spec, cmd) in CODE_TABLES.items():
+        o = Obligation(f"c03_code_table_{item}", "C03")
+        o.desc = f"{item}: the hand-written table that maps the format code on the wire to the variant accepts exactly the constructors the AMQP type system assigns to each variant (every width spelling of it) and rejects every other byte"
+        fn = tenv.fn(pat)
+        o.functions = [fn.name, tryfrom.name + " (inlined from serde_amqp)"]
+        o.bounds = ["every byte value 0..255 as the format code"]
+        o.assumes = ["the variant's payload is then decoded by the primitive deserializer (C03/C05 Kani harnesses)"]
+        _, enums_item = mir.parse_layouts([src])
+        _, enums_codes = mir.parse_layouts(["/repo/serde_amqp/src/format_code.rs"])
+        if "Field" not in enums_item or "EncodingCodes" not in enums_codes:
+            raise mir.Unsupported("Field / EncodingCodes enum not found in the source")
+        fns = dict(tenv.fns)
+        fns[tryfrom.name] = tryfrom
+        enums = dict(tenv.enums)
+        enums["Field"] = enums_item["Field"]
+        enums["EncodingCodes"] = enums_codes["EncodingCodes"]
+        ex = mir.Executor(fns, tenv.structs, enums, inline={r"^<u8 as (std::convert::)?TryInto<.*EncodingCodes>>::try_into$": r"^format_code::<impl at [^>]*>::try_from$"}, max_visits=3, consts=tenv.consts)
+        V = z3.BitVec("format.code", 8)
+        paths = ex.run(fn, {"_1": mir.Agg("visitor"), "_2": V})
+        hyp = ex.assumptions
+        want = {}
+        for variant, ty in spec.items():
+            if variant not in enums_item["Field"]:
+                raise mir.Unsupported(f"variant {variant} not in {item}'s Field enum")
+            for c in SPEC_CODES[ty]:
+                want[c] = enums_item["Field"][variant]
+        in_table = z3.Or(*[V == c for c in want])
+
+        def replay(m, cmd=cmd, want=want):
+            v = model_value(m, V)
+            codes = sorted(set(list(want) + [v, 0x40, 0x00, 0x70, 0xC0]))
+            cmds = [f"{cmd} {c}" for c in codes]
+            return cmds, (lambda outs: any(js.get("panic") or js["variant"] != want.get(c, -1) for c, js in zip(codes, outs)))
+
+        n = 0
+        for i, p in enumerate(paths):
+            if p.end != "return" or not isinstance(p.ret, mir.Agg):
+                continue
+            d = p.ret.get("#d")
+            if d is None:
+                raise mir.Unsupported("result without discriminant")
+            n += 1
+            okv = p.ret.get(("as", "Ok"))
+            fld = okv[0].get("#d") if isinstance(okv, mir.Agg) and isinstance(okv.get(0), mir.Agg) else None
+            H = hyp + p.cond
+            o.prove(f"path{i}:accepted-only-if-the-code-belongs-to-a-variant", H + [d == 0], in_table, replay=replay)
+            o.prove(f"path{i}:rejected-only-if-the-code-belongs-to-no-variant", H + [d != 0], z3.Not(in_table), replay=replay)
+            if fld is not None:
+                o.prove(f"path{i}:accepted-code-selects-its-own-variant", H + [d == 0], z3.And(*[z3.Implies(V == c, fld == idx) for c, idx in want.items()]), replay=replay)
+            else:
+                o.prove(f"path{i}:accepted-path-names-a-variant", H, d != 0, replay=replay)
+        o.cover("an accepting path exists", [z3.BoolVal(n > 1)])
+        out.append(o)
+    return out
+
+
+def c05_code_tables(env):
+    return [x for x in c03_code_tables(env) if _retag(x, "C05", x.name.replace("c03_", "c05_"))]
+
+
+REGISTRY.setdefault("C03", []).append(c03_code_tables)
+REGISTRY.setdefault("C05", []).append(c05_code_tables)
+
+
+# ---- C12 / C15: frames for a channel the connection has no session for ----------------------------
+
+
+def _conn_dispatch(env, prop):
+    out = []
+    E = env.enums["ConnectionState"]
+    occ = z3.Function("slot_is_live", z3.BitVecSort(64), z3.BoolSort())
+
+    # -- begin naming a local channel (remote-channel is chosen by the peer)
+    o = Obligation(f"{prop.lower()}_begin_for_unknown_channel", prop)
+    o.desc = "an incoming begin whose remote-channel names a local channel: accepted (and recorded exactly once) only while the connection is OPENED and a live locally-begun session holds that channel; otherwise an error comes back (which the engine turns into close-with-error) and nothing is recorded; the peer-chosen number never indexes the session table unchecked (no panic)"
+    fn = env.fn(r"^connection::<impl at fe2o3-amqp/src/connection/mod\.rs[^>]*>::on_incoming_begin_inner$")
+    o.functions = [fn.name]
+    o.bounds = ["one call; every ConnectionState; remote-channel absent or any 16-bit value; the named slot live or not"]
+    o.assumes = ["slab::Slab::get(k) is Some exactly for live keys; Slab indexing (slab[k]) panics for a key that is not live (documented)"]
+    ex = env.executor()
+    C = mir.Agg("conn")
+    st_a, d = enum_pre("pre.connection_state", env, "ConnectionState")
+    C[env.fidx("Connection", "local_state")] = st_a
+    rc = mir.Agg("remote_channel")
+    rc_d = z3.BitVec("begin.remote_channel.is_some", 64)
+    rc_v = z3.BitVec("begin.remote_channel", 16)
+    rc["#d"] = rc_d
+    some = mir.Agg("Some")
+    some[0] = rc_v
+    rc[("as", "Some")] = some
+    B = mir.Agg("begin")
+    B[env.fidx("Begin", "remote_channel")] = rc
+
+    def key64(k):
+        return z3.ZeroExt(64 - k.size(), k) if k.size() < 64 else k
+
+    def m_get(ex_, st, callee, args, argvals, dty):
+        r = mir.Agg("Option")
+        r["#d"] = z3.If(occ(key64(argvals[1])), z3.BitVecVal(1, 64), z3.BitVecVal(0, 64))
+        sm = mir.Agg("Some")
+        sm[0] = mir.Agg("relay")
+        r[("as", "Some")] = sm
+        return r
+
+    def m_contains(ex_, st, callee, args, argvals, dty):
+        return occ(key64(argvals[1]))
+
+    def m_index(ex_, st, callee, args, argvals, dty):
+        st.obligations.append(("the session table is indexed with a key that is known to be live", occ(key64(argvals[1])), list(st.cond)))
+        return mir.Agg("relay")
+
+    ex.models = [
+        (r"^Slab::<.*>::get(_mut)?$", m_get),
+        (r"^Slab::<.*>::contains$", m_contains),
+        (r"<Slab<.*> as Index(Mut)?<usize>>::index(_mut)?$", m_index),
+    ]
+    paths = ex.run(fn, {"_1": mir.Ref(("@self",), True), "@self": C, "_2": mir.Agg("channel"), "_3": mir.Ref(("@begin",), False), "@begin": B})
+    hyp = ex.assumptions + [state_valid(env, d, "ConnectionState"), z3.ULE(rc_d, 1)]
+    live = occ(z3.ZeroExt(48, rc_v))
+
+    def replay(m):
+        v = model_value(m, rc_v)
+        probes = sorted({min(v, 9), 0, 3, 9})
+        cmds = [f"peer_inject begin {x}" for x in probes]
+        return cmds, (lambda outs: any(js.get("panic") or js["peer"] != "close_err" for js in outs))
+
+    n = 0
+    for i, p in enumerate(paths):
+        if p.end != "return" or not isinstance(p.ret, mir.Agg):
+            continue
+        n += 1
+        ok = p.ret["#d"] == 0
+        inserts = count_calls(p, r"HashMap::<.*>::insert$")
+        H = hyp + p.cond
+        o.prove(f"path{i}:accepted-only-when-opened", H + [ok], d == E["Opened"], replay=replay)
+        o.prove(f"path{i}:unknown-local-channel-is-refused", H + [rc_d == 1, z3.Not(live)], z3.Not(ok), replay=replay)
+        o.prove(f"path{i}:recorded-at-most-once", H, z3.BoolVal(inserts <= 1), replay=replay)
+        if inserts:
+            o.prove(f"path{i}:recorded-only-for-a-live-session-while-opened", H, z3.And(ok, d == E["Opened"], rc_d == 1, live), replay=replay)
+        for (dsc, okc, c) in p.obligations:
+            o.prove(f"path{i}:{dsc}", hyp + c, okc, replay=replay)
+    o.cover("paths", [z3.BoolVal(n > 1)])
+    out.append(o)
+
+    # -- end on a channel without a session
+    o = Obligation(f"{prop.lower()}_end_for_unknown_channel", prop)
+    o.desc = "an incoming end: forwarded to the session that holds the channel (and the channel unmapped) only while OPENED; an end on a channel that no session holds, or outside OPENED, comes back as an error (close-with-error in the engine) -- it is never swallowed"
+    fn = env.fn(r"^connection::<impl at fe2o3-amqp/src/connection/mod\.rs[^>]*>::on_incoming_end::\{closure#0\}$")
+    o.functions = [fn.name]
+    o.bounds = ["coroutine body from its initial state through one poll; every ConnectionState; channel mapped or not"]
+    o.assumes = ["HashMap::remove(k) is Some exactly when k is mapped"]
+    ex = env.executor()
+    C = mir.Agg("conn")
+    st_a, d = enum_pre("pre.connection_state", env, "ConnectionState")
+    C[env.fidx("Connection", "local_state")] = st_a
+    mapped = z3.Bool("channel.is_mapped")
+
+    def m_remove(ex_, st, callee, args, argvals, dty):
+        r = mir.Agg("Option")
+        r["#d"] = z3.If(mapped, z3.BitVecVal(1, 64), z3.BitVecVal(0, 64))
+        sm = mir.Agg("Some")
+        sm[0] = mir.Agg("relay")
+        r[("as", "Some")] = sm
+        return r
+
+    ex.models = [(r"^HashMap::<.*>::remove::<", m_remove), (r"^HashMap::<.*>::(get|get_mut)::<", m_remove)]
+    pin, cor = coroutine_start(env, "@self", {})
+    paths = ex.run(fn, {"_1": pin, "@cor": cor, "@self": C})
+    hyp = ex.assumptions + [state_valid(env, d, "ConnectionState")]
+
+    def replay_end(m):
+        cmds = [f"peer_inject end {x}" for x in (0, 7)] + ["peer_inject flow 2", "peer_inject attach 1"]
+        return cmds, (lambda outs: any(js.get("panic") or js["peer"] != "close_err" for js in outs))
+
+    n = 0
+    for i, p in enumerate(paths):
+        if p.end != "return":
+            continue
+        is_ready, is_ok = poll_ready_result(p.ret)
+        if not z3.is_true(z3.simplify(is_ready)) or is_ok is None:
+            continue
+        n += 1
+        sends = count_calls(p, r"mpsc::Sender::<.*>::send$")
+        H = hyp + p.cond
+        o.prove(f"path{i}:ok-only-when-opened-and-mapped", H + [is_ok], z3.And(d == E["Opened"], mapped), replay=replay_end)
+        if sends:
+            o.prove(f"path{i}:forwarded-only-when-opened-and-mapped", H, z3.And(d == E["Opened"], mapped), replay=replay_end)
+    o.cover("paths", [z3.BoolVal(n > 1)])
+    out.append(o)
+    return out
+
+
+def c12_conn_dispatch(env):
+    return _conn_dispatch(env, "C12")
+
+
+def c15_conn_dispatch(env):
+    return _conn_dispatch(env, "C15")
+
+
+REGISTRY.setdefault("C12", []).append(c12_conn_dispatch)
+REGISTRY.setdefault("C15", []).append(c15_conn_dispatch)
